@@ -242,7 +242,9 @@ def plan(tier, seed):
         tasks=tasks,
         run=run_task,
         rule="all histories of view / non-view statements up to the depth bound from each base (4 shapes, C and F order) x every permutation of "
-        "the terminal's terms (<= 4 live tensors; rotations and reversals beyond); non-trivial = history in which >= 2 live tensors share memory",
+        "the terminal's terms (<= 4 live tensors; rotations and reversals beyond), x terminals leaving one tensor out, x two-epoch runs (first a backward from each "
+        "single tensor, then a terminal over everything, both term orders), x each tensor itself as terminal with a C-ordered / F-ordered / broadcast / scalar / default "
+        "seed gradient; non-trivial = history in which >= 2 live tensors share memory",
         bounds={w: d for w, d in BOUNDS[tier]},
         assumptions=["the expected view of the base gradient is addressed through integer tag arrays that went through the same NumPy view ops"],
     )
